@@ -1,4 +1,7 @@
 import MCHap.Proofs.Pedigree
+import MCHap.Proofs.PedigreeEnum
+import MCHap.Proofs.PedigreeValid
+import MCHap.Proofs.PedigreeEnumSmall
 
 /-!
 # C17 — the pedigree inheritance model is a proper probability distribution; zero iff invalid
@@ -71,9 +74,343 @@ theorem mixture_sum_one (dp : List ℕ) (pp tau : ℕ) (lam e : ℚ) (fs : List 
   rw [hu]
   by_cases h : tau = 0 ∨ pp = 0
   · simp [specErr, h]
-  · push_neg at h
+  · rw [not_or] at h
     obtain ⟨h1, h2, h3⟩ := hk h.1 h.2
     rw [gamete_sum_one dp pp tau lam h1 h2 h3]
     ring
+
+/-! ### trios -/
+
+/-- regrouping: summing, over all progeny vectors `d`, the pairs of gametes that add up to `d`
+    is the sum over all pairs -/
+theorem sum_regroup (n tp tq : ℕ) (F : List ℕ × List ℕ → ℚ) :
+    ((compositions n (tp + tq)).map (fun d =>
+        (((gametePairs n tp tq).filter (fun ab => vadd ab.1 ab.2 = d)).map F).sum)).sum
+      = ((gametePairs n tp tq).map F).sum := by
+  apply MCHap.sum_regroup _ (MCHap.compositions_nodup _ _)
+  intro ab hab
+  obtain ⟨ha, hb⟩ := (mem_gametePairs _ _ _ _).mp hab
+  obtain ⟨ha1, ha2⟩ := (MCHap.mem_compositions_iff _ _ _).mp ha
+  obtain ⟨hb1, hb2⟩ := (MCHap.mem_compositions_iff _ _ _).mp hb
+  rw [MCHap.mem_compositions_iff]
+  exact ⟨by rw [vadd_length _ _ (by omega)]; exact ha1, by rw [vadd_sum _ _ (by omega)]; omega⟩
+
+/-- **the inheritance probabilities sum to one over all unordered progeny genotypes**, for all
+    ploidies, gamete sizes (balanced, unbalanced, clonal `τ = 0`), unknown parents (ploidy 0),
+    double-reduction rates (non-zero only at `τ = 2`), error rates and frequency vectors summing to one -/
+theorem trio_sum_one (T : Trio) (n : ℕ) (hdp : T.dp.length = n) (hdq : T.dq.length = n)
+    (hfn : T.fs.length = n) (hfs : T.fs.sum = 1)
+    (hp : T.tp ≠ 0 → T.pp ≠ 0 → T.dp.sum = T.pp ∧ T.tp ≤ T.pp ∧ (T.lp ≠ 0 → T.tp = 2))
+    (hq : T.tq ≠ 0 → T.pq ≠ 0 → T.dq.sum = T.pq ∧ T.tq ≤ T.pq ∧ (T.lq ≠ 0 → T.tq = 2)) :
+    ((compositions n (T.tp + T.tq)).map (fun d => trioPmf { T with d := d })).sum = 1 := by
+  have e : ∀ d ∈ compositions n (T.tp + T.tq), trioPmf { T with d := d }
+      = (((gametePairs n T.tp T.tq).filter (fun ab => vadd ab.1 ab.2 = d)).map
+          (fun ab => mixPmf T.dp T.pp T.tp T.lp T.ep T.fs ab.1 * mixPmf T.dq T.pq T.tq T.lq T.eq T.fs ab.2)).sum := by
+    intro d hd
+    unfold trioPmf
+    simp only [((MCHap.mem_compositions_iff _ _ _).mp hd).1]
+  rw [List.map_congr_left e, sum_regroup n T.tp T.tq, sum_gametePairs]
+  have h1 := mixture_sum_one T.dp T.pp T.tp T.lp T.ep T.fs (by omega) hfs hp
+  have h2 := mixture_sum_one T.dq T.pq T.tq T.lq T.eq T.fs (by omega) hfs hq
+  rw [hdp] at h1; rw [hdq] at h2
+  rw [h1, h2]; ring
+
+/-! ### the gamete enumerator -/
+
+/-- **each successful `increment_dosage` step** keeps the length and the total, stays inside the
+    constraint and yields a lexicographically strictly smaller vector — hence the enumeration never
+    repeats a gamete and terminates -/
+theorem increment_decreasing (d c out : List ℕ) (hle : List.Forall₂ (· ≤ ·) d c)
+    (h : incrementDosage d c = some out) :
+    out.length = d.length ∧ out.sum = d.sum ∧ List.Forall₂ (· ≤ ·) out c ∧ List.Lex (· < ·) out d :=
+  incrementDosage_decreasing d c out hle h
+
+/-- every gamete the code's `while True: … increment_dosage … except: break` loops visit has total
+    `τ` and lies under the constraint (soundness of the literal enumerator, any constraint vector) -/
+theorem enumerator_sound (tau : ℕ) (c : List ℕ) :
+    ∀ x ∈ enumDosage tau c, x.sum = tau ∧ List.Forall₂ (· ≤ ·) x c := enumDosage_sound tau c
+
+/-! ### zero error: positive probability ⇔ Mendelian validity -/
+
+/-- support of the gamete pmf = constraint of the validity test (see `MCHap.gameteSpec_pos_iff`) -/
+theorem gameteSpec_pos_iff (d dp a : List ℕ) (pp tau : ℕ) (lam : ℚ)
+    (hd : d.length = dp.length) (ha : a.length = dp.length) (hs : a.sum = tau)
+    (had : ∀ i, a.getD i 0 ≤ d.getD i 0) (hdp : dp.sum = pp) (htp : tau ≤ pp) (ht1 : 1 ≤ tau)
+    (h0 : 0 ≤ lam) (h1 : lam < 1) (hlam : lam ≠ 0 → tau = 2) :
+    0 < gameteSpec dp pp tau lam a ↔ vle a (constraintOf d dp lam) = true :=
+  MCHap.gameteSpec_pos_iff d dp a pp tau lam hd ha hs had hdp htp ht1 h0 h1 hlam
+
+theorem vadd_getD (a b : List ℕ) (h : a.length = b.length) (i : ℕ) :
+    (vadd a b).getD i 0 = a.getD i 0 + b.getD i 0 := getD_zipWith (· + ·) rfl a b h i
+
+theorem vsub_getD (a b : List ℕ) (h : a.length = b.length) (i : ℕ) :
+    (vsub a b).getD i 0 = a.getD i 0 - b.getD i 0 := getD_zipWith (· - ·) rfl a b h i
+
+/-- **with zero parent error (both parents known, `λ < 1`) the inheritance probability of a progeny
+    genotype is positive exactly when the trio passes the Mendelian validity test** (the test
+    evaluated over all gametes under the constraint; `trioValid` runs it with the literal enumerator) -/
+theorem positive_iff_valid (T : Trio) (n : ℕ) (hd : T.d.length = n) (hdp : T.dp.length = n)
+    (hdq : T.dq.length = n) (hsum : T.d.sum = T.tp + T.tq) (hep : T.ep = 0) (heq : T.eq = 0)
+    (hpp : T.pp ≠ 0) (hpq : T.pq ≠ 0)
+    (hp : T.dp.sum = T.pp ∧ T.tp ≤ T.pp ∧ 0 ≤ T.lp ∧ T.lp < 1 ∧ (T.lp ≠ 0 → T.tp = 2))
+    (hq : T.dq.sum = T.pq ∧ T.tq ≤ T.pq ∧ 0 ≤ T.lq ∧ T.lq < 1 ∧ (T.lq ≠ 0 → T.tq = 2)) :
+    0 < trioPmf T ↔ trioValidSpec T.d T.dp T.dq T.tp T.tq T.lp T.lq = true := by
+  obtain ⟨p1, p2, p3, p4, p5⟩ := hp
+  obtain ⟨q1, q2, q3, q4, q5⟩ := hq
+  set cp := constraintOf T.d T.dp T.lp with hcp
+  set cq := constraintOf T.d T.dq T.lq with hcq
+  have hcpl : cp.length = n := by rw [hcp, constraintOf_length _ _ _ (by omega)]; exact hd
+  have hcql : cq.length = n := by rw [hcq, constraintOf_length _ _ _ (by omega)]; exact hd
+  -- facts about a pair of gametes adding up to the progeny
+  have pairFacts : ∀ a b : List ℕ, a ∈ compositions n T.tp → b ∈ compositions n T.tq → vadd a b = T.d →
+      (0 ≤ mixPmf T.dp T.pp T.tp T.lp 0 T.fs a) ∧ (0 ≤ mixPmf T.dq T.pq T.tq T.lq 0 T.fs b) ∧
+      (0 < mixPmf T.dp T.pp T.tp T.lp 0 T.fs a ↔ vle a cp = true) ∧
+      (0 < mixPmf T.dq T.pq T.tq T.lq 0 T.fs b ↔ vle b cq = true) ∧
+      (∀ i, T.d.getD i 0 = a.getD i 0 + b.getD i 0) := by
+    intro a b ha hb hab
+    obtain ⟨ha1, ha2⟩ := (MCHap.mem_compositions_iff _ _ _).mp ha
+    obtain ⟨hb1, hb2⟩ := (MCHap.mem_compositions_iff _ _ _).mp hb
+    have hpt : ∀ i, T.d.getD i 0 = a.getD i 0 + b.getD i 0 := by
+      intro i; rw [← hab, vadd_getD a b (by omega) i]
+    refine ⟨mixPmf_nonneg_zero_err _ _ _ _ _ _ ha2 hpp p3 p4.le,
+      mixPmf_nonneg_zero_err _ _ _ _ _ _ hb2 hpq q3 q4.le,
+      mixPmf_pos_iff T.d T.dp a T.pp T.tp T.lp T.fs (by omega) (by omega) ha2
+        (fun i => by rw [hpt i]; omega) hpp p1 p2 p3 p4 p5,
+      mixPmf_pos_iff T.d T.dq b T.pq T.tq T.lq T.fs (by omega) (by omega) hb2
+        (fun i => by rw [hpt i]; omega) hpq q1 q2 q3 q4 q5, hpt⟩
+  unfold trioPmf
+  rw [hep, heq, hd]
+  constructor
+  · intro hpos
+    -- some term is non-zero
+    have hex : ∃ ab ∈ (gametePairs n T.tp T.tq).filter (fun ab => vadd ab.1 ab.2 = T.d),
+        mixPmf T.dp T.pp T.tp T.lp 0 T.fs ab.1 * mixPmf T.dq T.pq T.tq T.lq 0 T.fs ab.2 ≠ 0 := by
+      by_contra hne
+      rw [not_exists] at hne
+      have : ((List.filter (fun ab => vadd ab.1 ab.2 = T.d) (gametePairs n T.tp T.tq)).map
+          (fun ab => mixPmf T.dp T.pp T.tp T.lp 0 T.fs ab.1 * mixPmf T.dq T.pq T.tq T.lq 0 T.fs ab.2)).sum = 0 := by
+        apply List.sum_eq_zero
+        intro v hv
+        obtain ⟨ab, hab, rfl⟩ := List.mem_map.mp hv
+        by_contra h
+        exact hne ab ⟨hab, h⟩
+      rw [this] at hpos; exact lt_irrefl _ hpos
+    obtain ⟨⟨a, b⟩, hmem, hne⟩ := hex
+    obtain ⟨hm1, hm2⟩ := List.mem_filter.mp hmem
+    obtain ⟨ha0, hb0⟩ := (mem_gametePairs _ _ _ _).mp hm1
+    have ha : a ∈ compositions n T.tp := ha0
+    have hb : b ∈ compositions n T.tq := hb0
+    have hab : vadd a b = T.d := by simpa using hm2
+    obtain ⟨n1, n2, i1, i2, hpt⟩ := pairFacts a b ha hb hab
+    obtain ⟨ha1, ha2⟩ := (MCHap.mem_compositions_iff _ _ _).mp ha
+    obtain ⟨hb1, hb2⟩ := (MCHap.mem_compositions_iff _ _ _).mp hb
+    simp only at hne
+    have hMp : 0 < mixPmf T.dp T.pp T.tp T.lp 0 T.fs a :=
+      lt_of_le_of_ne n1 (fun e => hne (by rw [← e]; ring))
+    have hMq : 0 < mixPmf T.dq T.pq T.tq T.lq 0 T.fs b :=
+      lt_of_le_of_ne n2 (fun e => hne (by rw [← e]; ring))
+    have va := i1.mp hMp
+    have vb := i2.mp hMq
+    have hsa : T.tp ≤ cp.sum := by
+      rw [← ha2]; exact sum_le_of_getD_le a cp (by omega) ((vle_iff a cp (by omega)).mp va)
+    have hsb : T.tq ≤ cq.sum := by
+      rw [← hb2]; exact sum_le_of_getD_le b cq (by omega) ((vle_iff b cq (by omega)).mp vb)
+    have hvs : vsub T.d a = b := by
+      apply list_ext_getD _ _ (by simp [vsub]; omega)
+      intro i
+      rw [vsub_getD T.d a (by omega) i, hpt i]; omega
+    unfold trioValidSpec trioValidWith
+    simp only
+    rw [← hcp, ← hcq, if_neg (by omega), List.any_eq_true]
+    refine ⟨a, ?_, ?_⟩
+    · unfold enumSpec
+      rw [List.mem_filter, hcpl]
+      exact ⟨ha, va⟩
+    · rw [hvs, vb, hab]; simp
+  · intro hv
+    unfold trioValidSpec trioValidWith at hv
+    simp only at hv
+    rw [← hcp, ← hcq] at hv
+    split at hv
+    · simp at hv
+    rw [List.any_eq_true] at hv
+    obtain ⟨gp, hgp, hcond⟩ := hv
+    unfold enumSpec at hgp
+    rw [List.mem_filter, hcpl] at hgp
+    obtain ⟨hgc, hgle⟩ := hgp
+    simp only [Bool.and_eq_true, decide_eq_true_eq] at hcond
+    obtain ⟨hbq, hadd⟩ := hcond
+    obtain ⟨hg1, hg2⟩ := (MCHap.mem_compositions_iff _ _ _).mp hgc
+    set b := vsub T.d gp with hb
+    have hbl : b.length = n := by simp [hb, vsub]; omega
+    have hbs : b.sum = T.tq := by
+      have := vadd_sum gp b (by omega)
+      rw [hadd] at this; omega
+    have hbc : b ∈ compositions n T.tq := (MCHap.mem_compositions_iff _ _ _).mpr ⟨hbl, hbs⟩
+    obtain ⟨n1, n2, i1, i2, _⟩ := pairFacts gp b hgc hbc hadd
+    have hterm : 0 < mixPmf T.dp T.pp T.tp T.lp 0 T.fs gp * mixPmf T.dq T.pq T.tq T.lq 0 T.fs b :=
+      mul_pos (i1.mpr hgle) (i2.mpr hbq)
+    have hmem : (gp, b) ∈ (gametePairs n T.tp T.tq).filter (fun ab => vadd ab.1 ab.2 = T.d) := by
+      rw [List.mem_filter]
+      exact ⟨(mem_gametePairs _ _ _ _).mpr ⟨hgc, hbc⟩, by simpa using hadd⟩
+    have hnn : ∀ v ∈ ((gametePairs n T.tp T.tq).filter (fun ab => vadd ab.1 ab.2 = T.d)).map
+        (fun ab => mixPmf T.dp T.pp T.tp T.lp 0 T.fs ab.1 * mixPmf T.dq T.pq T.tq T.lq 0 T.fs ab.2), 0 ≤ v := by
+      intro v hv
+      obtain ⟨⟨a', b'⟩, hab', rfl⟩ := List.mem_map.mp hv
+      obtain ⟨hm1, hm2⟩ := List.mem_filter.mp hab'
+      obtain ⟨ha', hb'⟩ := (mem_gametePairs _ _ _ _).mp hm1
+      obtain ⟨m1, m2, _, _, _⟩ := pairFacts a' b' ha' hb' (by simpa using hm2)
+      exact mul_nonneg m1 m2
+    have hle := List.single_le_sum hnn _ (List.mem_map.mpr ⟨(gp, b), hmem, rfl⟩)
+    exact lt_of_lt_of_le hterm hle
+
+/-- **duos** (parent q unknown: ploidy 0; parent p known with zero error; all prior frequencies
+    positive): the inheritance probability is positive exactly when `duo_valid` passes -/
+theorem duo_positive_iff_valid (T : Trio) (n : ℕ) (hd : T.d.length = n) (hdp : T.dp.length = n)
+    (hsum : T.d.sum = T.tp + T.tq) (hep : T.ep = 0) (hpp : T.pp ≠ 0) (hpq : T.pq = 0)
+    (hf : ∀ f ∈ T.fs, 0 < f)
+    (hp : T.dp.sum = T.pp ∧ T.tp ≤ T.pp ∧ 0 ≤ T.lp ∧ T.lp < 1 ∧ (T.lp ≠ 0 → T.tp = 2)) :
+    0 < trioPmf T ↔ duoValid T.d T.dp T.tp T.lp = some true := by
+  obtain ⟨p1, p2, p3, p4, p5⟩ := hp
+  set cp := constraintOf T.d T.dp T.lp with hcp
+  have hcpl : cp.length = n := by rw [hcp, constraintOf_length _ _ _ (by omega)]; exact hd
+  have hduo : duoValid T.d T.dp T.tp T.lp = some (decide (cp.sum ≥ T.tp)) := by
+    unfold duoValid
+    rw [if_neg]
+    rintro ⟨h1, h2⟩
+    exact h2 (p5 (ne_of_gt h1))
+  have hMq : ∀ b, mixPmf T.dq T.pq T.tq T.lq T.eq T.fs b = unknownPmf T.fs b := by
+    intro b; unfold mixPmf specErr; simp [hpq]
+  have pairFacts : ∀ a b : List ℕ, a ∈ compositions n T.tp → b ∈ compositions n T.tq → vadd a b = T.d →
+      (0 ≤ mixPmf T.dp T.pp T.tp T.lp 0 T.fs a) ∧
+      (0 < mixPmf T.dp T.pp T.tp T.lp 0 T.fs a ↔ vle a cp = true) := by
+    intro a b ha hb hab
+    obtain ⟨ha1, ha2⟩ := (MCHap.mem_compositions_iff _ _ _).mp ha
+    obtain ⟨hb1, hb2⟩ := (MCHap.mem_compositions_iff _ _ _).mp hb
+    have hpt : ∀ i, T.d.getD i 0 = a.getD i 0 + b.getD i 0 := by
+      intro i; rw [← hab, vadd_getD a b (by omega) i]
+    exact ⟨mixPmf_nonneg_zero_err _ _ _ _ _ _ ha2 hpp p3 p4.le,
+      mixPmf_pos_iff T.d T.dp a T.pp T.tp T.lp T.fs (by omega) (by omega) ha2
+        (fun i => by rw [hpt i]; omega) hpp p1 p2 p3 p4 p5⟩
+  rw [hduo]
+  unfold trioPmf
+  rw [hep, hd]
+  simp only [hMq]
+  constructor
+  · intro hpos
+    have hex : ∃ ab ∈ (gametePairs n T.tp T.tq).filter (fun ab => vadd ab.1 ab.2 = T.d),
+        mixPmf T.dp T.pp T.tp T.lp 0 T.fs ab.1 * unknownPmf T.fs ab.2 ≠ 0 := by
+      by_contra hne
+      rw [not_exists] at hne
+      have : ((List.filter (fun ab => vadd ab.1 ab.2 = T.d) (gametePairs n T.tp T.tq)).map
+          (fun ab => mixPmf T.dp T.pp T.tp T.lp 0 T.fs ab.1 * unknownPmf T.fs ab.2)).sum = 0 := by
+        apply List.sum_eq_zero
+        intro v hv
+        obtain ⟨ab, hab, rfl⟩ := List.mem_map.mp hv
+        by_contra h
+        exact hne ab ⟨hab, h⟩
+      rw [this] at hpos; exact lt_irrefl _ hpos
+    obtain ⟨⟨a, b⟩, hmem, hne⟩ := hex
+    obtain ⟨hm1, hm2⟩ := List.mem_filter.mp hmem
+    obtain ⟨ha0, hb0⟩ := (mem_gametePairs _ _ _ _).mp hm1
+    have ha : a ∈ compositions n T.tp := ha0
+    have hb : b ∈ compositions n T.tq := hb0
+    have hab : vadd a b = T.d := by simpa using hm2
+    obtain ⟨n1, i1⟩ := pairFacts a b ha hb hab
+    obtain ⟨ha1, ha2⟩ := (MCHap.mem_compositions_iff _ _ _).mp ha
+    simp only at hne
+    have hMp : 0 < mixPmf T.dp T.pp T.tp T.lp 0 T.fs a :=
+      lt_of_le_of_ne n1 (fun e => hne (by rw [← e]; ring))
+    have va := i1.mp hMp
+    have hsa : T.tp ≤ cp.sum := by
+      rw [← ha2]; exact sum_le_of_getD_le a cp (by omega) ((vle_iff a cp (by omega)).mp va)
+    simp [hsa]
+  · intro hv
+    have hge : T.tp ≤ cp.sum := by simpa using hv
+    -- a gamete of p under the constraint: the greedy fill
+    obtain ⟨f1, f2⟩ := fillGreedy_spec cp T.tp
+    have f3 := fillGreedy_rem_zero cp T.tp hge
+    set a := (fillGreedy T.tp cp).1 with hadef
+    have hal : a.length = n := by rw [f2.length_eq]; exact hcpl
+    have has : a.sum = T.tp := by omega
+    have hle_d : List.Forall₂ (· ≤ ·) a T.d :=
+      forall₂_le_trans f2 (constraintOf_le T.d T.dp T.lp (by omega))
+    obtain ⟨c1, c2, c3⟩ := vsub_spec hle_d
+    set b := vsub T.d a with hbdef
+    have hac : a ∈ compositions n T.tp := (MCHap.mem_compositions_iff _ _ _).mpr ⟨hal, has⟩
+    have hbc : b ∈ compositions n T.tq := (MCHap.mem_compositions_iff _ _ _).mpr ⟨by omega, by omega⟩
+    have hadd : vadd a b = T.d := by
+      apply list_ext_getD _ _ (by rw [vadd_length a b (by omega)]; omega)
+      intro i
+      rw [vadd_getD a b (by omega) i]; have := c3 i; omega
+    obtain ⟨_, i1⟩ := pairFacts a b hac hbc hadd
+    have va : vle a cp = true := (vle_iff a cp (by omega)).mpr ((forall₂_le_iff a cp (by omega)).mp f2)
+    have hterm : 0 < mixPmf T.dp T.pp T.tp T.lp 0 T.fs a * unknownPmf T.fs b :=
+      mul_pos (i1.mpr va) (unknownPmf_pos T.fs hf b)
+    have hmem : (a, b) ∈ (gametePairs n T.tp T.tq).filter (fun ab => vadd ab.1 ab.2 = T.d) := by
+      rw [List.mem_filter]
+      exact ⟨(mem_gametePairs _ _ _ _).mpr ⟨hac, hbc⟩, by simpa using hadd⟩
+    have hnn : ∀ v ∈ ((gametePairs n T.tp T.tq).filter (fun ab => vadd ab.1 ab.2 = T.d)).map
+        (fun ab => mixPmf T.dp T.pp T.tp T.lp 0 T.fs ab.1 * unknownPmf T.fs ab.2), 0 ≤ v := by
+      intro v hv
+      obtain ⟨⟨a', b'⟩, hab', rfl⟩ := List.mem_map.mp hv
+      obtain ⟨hm1, hm2⟩ := List.mem_filter.mp hab'
+      obtain ⟨ha', hb'⟩ := (mem_gametePairs _ _ _ _).mp hm1
+      obtain ⟨m1, _⟩ := pairFacts a' b' ha' hb' (by simpa using hm2)
+      exact mul_nonneg m1 (unknownPmf_pos T.fs hf b').le
+    have hle := List.single_le_sum hnn _ (List.mem_map.mpr ⟨(a, b), hmem, rfl⟩)
+    exact lt_of_lt_of_le hterm hle
+
+/-! ### the literal enumerator is complete — machine-checked on a bounded family (a test, not a proof
+    of the general statement; the general statement enters `trioCode_eq_spec` as a hypothesis) -/
+
+/-- every constraint vector of length ≤ 4 with entries ≤ 3 and every gamete size that fits
+    (kernel evaluation, `MCHap/Proofs/PedigreeEnumSmall.lean`) -/
+theorem enumerator_complete_small :
+    ∀ m ∈ List.range 5, ∀ c ∈ boxVecs m 3, ∀ tau ∈ List.range (c.sum + 1), EnumComplete tau c :=
+  enumerator_complete_small_aux
+
+/-! ### concrete instances (non-vacuity; the code-structure model agrees with the specification) -/
+
+/-- tetraploid parents `0011`·… as count vectors `[2,1,1]` and `[0,3,1]`, `τ = (2,2)`, `λ_p = 1/10`,
+    errors `1/100` and `1/2`, skewed frequencies: the 15 progeny genotypes sum to one, for the
+    specification and for the model of `trio_log_pmf` (four branches + literal enumerator) alike -/
+def exTrio : Trio where
+  d := []
+  dp := [2, 1, 1]
+  dq := [0, 3, 1]
+  pp := 4
+  pq := 4
+  tp := 2
+  tq := 2
+  lp := 1/10
+  lq := 0
+  ep := 1/100
+  eq := 1/2
+  fs := [1/2, 1/4, 1/4]
+
+example : (compositions 3 4).length = 15 ∧
+    ((compositions 3 4).map (fun d => trioPmf { exTrio with d := d })).sum = 1 ∧
+    (∀ d ∈ compositions 3 4, trioGuard { exTrio with d := d } = true ∧
+      trioPmfCode { exTrio with d := d } = trioPmf { exTrio with d := d }) := by
+  decide +kernel
+
+/-- zero error: `[2,2,0]` (two copies of allele 0 from p, two of allele 1 from q) is valid and has
+    positive probability; `[4,0,0]` is invalid and has probability zero; `[2,1,1]` is valid with and
+    without double reduction -/
+example :
+    let T0 : Trio := { exTrio with ep := 0, eq := 0 }
+    0 < trioPmf { T0 with d := [2, 2, 0] } ∧ trioValid [2, 2, 0] T0.dp T0.dq 2 2 T0.lp T0.lq = some true ∧
+    trioPmf { T0 with d := [4, 0, 0] } = 0 ∧ trioValid [4, 0, 0] T0.dp T0.dq 2 2 T0.lp T0.lq = some false ∧
+    0 < trioPmf { T0 with d := [2, 1, 1] } ∧ trioValidSpec [2, 1, 1] T0.dp T0.dq 2 2 T0.lp T0.lq = true ∧
+    trioValidSpec [2, 1, 1] T0.dp T0.dq 2 2 0 0 = true := by
+  decide +kernel
+
+/-- an unbalanced `(1,3)` and a clonal `(0,2)` edge and an unknown parent also sum to one -/
+example :
+    ((compositions 2 4).map (fun d => trioPmf { exTrio with d := d, dp := [1, 1], dq := [2, 2], pp := 2, tp := 1, tq := 3, lp := 0, fs := [1/3, 2/3] })).sum = 1 ∧
+    ((compositions 2 2).map (fun d => trioPmf { exTrio with d := d, dp := [1, 1], dq := [2, 2], pp := 2, tp := 0, tq := 2, lp := 0, lq := 1/2, fs := [1/3, 2/3] })).sum = 1 ∧
+    ((compositions 2 4).map (fun d => trioPmf { exTrio with d := d, dp := [0, 0], dq := [2, 2], pp := 0, tp := 2, tq := 2, lp := 0, ep := 1, fs := [1/3, 2/3] })).sum = 1 := by
+  decide +kernel
 
 end MCHap.C17
